@@ -25,7 +25,7 @@ import (
 //
 //	cfg pfx=</a/b|-> auth=0|1 proof=0|1 pkce=0|1 upload=0|1 introspect=0|1 sticky=0|1
 //	    describe=0|1 landing=0|1 notfound=0|1 custom=<VERB:/pattern,...|->
-//	req <VERB> <path> inner=<behaviour of the mock authenticator> proof=<absent|valid|bad>
+//	req <VERB> <path> inner=<behaviour of the mock authenticator; ctx+<kind> = (non-nil context, that error)> proof=<absent|valid|bad>
 //	    ct=<arrow|other> body=<kind> sess=<absent|garbage|fresh>
 //
 // Observation per request: gate=<denied|open|na> ev=<mock invocations>. `denied` = the response is
@@ -145,9 +145,11 @@ func c22KV(fields []string) map[string]string {
 }
 
 func c22IsRejectInner(inner string) bool {
-	switch inner {
-	case "failure", "wrapped", "value", "perm", "unavail", "rpcother", "other", "nilnil":
+	switch strings.TrimPrefix(inner, "ctx+") {
+	case "failure", "wrapped", "value", "perm", "unavail", "rpcother", "other":
 		return true
+	case "nilnil":
+		return inner == "nilnil"
 	}
 	return false
 }
@@ -210,6 +212,16 @@ func c22Mock(w *c22World) vgirpc.AuthenticateFunc {
 	return func(*http.Request) (*vgirpc.AuthContext, error) {
 		w.authCalls++
 		in := w.inner
+		if strings.HasPrefix(in, "ctx+") {
+			// a refusal that nevertheless hands back a usable context: (non-nil ctx, err). Only the
+			// error counts; a gate that looks at the context first lets the request through.
+			saved := w.inner
+			w.inner = in[4:]
+			_, err := c22Mock(w)(nil)
+			w.inner = saved
+			w.authCalls--
+			return &vgirpc.AuthContext{Domain: "mock", Authenticated: true, Principal: "introspector"}, err
+		}
 		switch {
 		case strings.HasPrefix(in, "accept:"):
 			return &vgirpc.AuthContext{Domain: "mock", Authenticated: true, Principal: in[7:]}, nil
@@ -586,6 +598,9 @@ func c22Request(c *Case, s *c22Server, line, verb, path string, kv map[string]st
 	if hasAuth && strings.HasPrefix(inner, "accept:") && !refusing {
 		identity = inner
 	}
+	if hasAuth && strings.HasPrefix(inner, "ctx+") {
+		identity = "accept:introspector" // the context such a refusal carries (tokens are minted for it)
+	}
 
 	// ---- body
 	var body []byte
@@ -753,6 +768,9 @@ func c22Request(c *Case, s *c22Server, line, verb, path string, kv map[string]st
 			c.Stat("refused-by:proof-gate")
 		} else {
 			c.Stat("refused-by:" + inner)
+			if strings.HasPrefix(inner, "ctx+") {
+				c.Stat("refused-with-context")
+			}
 		}
 	} else {
 		c.Stat("admitting:" + evs)
@@ -814,8 +832,10 @@ var (
 	c22Prefixes = []string{"-", "-", "/vgi", "/vgi", "/a/b", "/api/v1/x", "/describe", "/init", "/exchange/x", "/.well-known", "/u1"}
 	c22Customs  = []string{"POST:/custom", "GET:/custom/{id}", "*:/zz/deep/", "DELETE:/admin", "POST:{P}/__test_drain__",
 		"PUT:/upload/{name}/part/{n}", "GET:{P}/extra", "POST:{P}/u1", "POST:{P}/ex1/exchange", "GET:/zz/{$}"}
-	c22RejectInners = []string{"failure", "wrapped", "value", "perm", "unavail", "rpcother", "other", "nilnil"}
-	c22AllInners    = []string{"failure", "wrapped", "value", "perm", "unavail", "rpcother", "other", "nilnil", "anon",
+	c22RejectInners = []string{"failure", "wrapped", "value", "perm", "unavail", "rpcother", "other", "nilnil",
+		"ctx+failure", "ctx+wrapped", "ctx+value", "ctx+perm", "ctx+unavail", "ctx+rpcother", "ctx+other"}
+	c22AllInners = []string{"failure", "wrapped", "value", "perm", "unavail", "rpcother", "other", "nilnil",
+		"ctx+failure", "ctx+wrapped", "ctx+value", "ctx+perm", "ctx+unavail", "ctx+rpcother", "ctx+other", "anon",
 		"accept:alice", "accept:introspector"}
 	c22Bodies = []string{"empty", "garbage", "valid", "valid", "valid", "mismatch", "count:3", "count:0", "count:100", "count:101",
 		"count:-5", "tok-unknown", "tok-jws", "tok-down"}
